@@ -330,6 +330,26 @@ def run_tags(pe, acc, case):
             c = pe.Corr([make(pe, content, i) for i in range(3)])
             c.tag = tag
             items.append(('Corr', c))
+        if content != 'purecov':
+            # tags of the observables INSIDE a correlator: all entries tagged, one entry tagged, with an undefined slice, matrix content
+            for variant in ('all', 'one', 'with-none', 'matrix'):
+                if variant == 'matrix':
+                    mats = []
+                    for t in range(2):
+                        m = np.empty((2, 2), dtype=object)
+                        for j, i in enumerate(np.ndindex((2, 2))):
+                            m[i] = make(pe, content, 10 * t + j)
+                            m[i].tag = tag
+                        mats.append(m)
+                    c = pe.Corr(mats)
+                else:
+                    obs = [make(pe, content, 40 + i) for i in range(3)]
+                    for i, x in enumerate(obs):
+                        if variant != 'one' or i == 1:
+                            x.tag = tag
+                    c = pe.Corr([obs[0], None, obs[2]] if variant == 'with-none' else obs)
+                c.tag = 'corr tag'
+                items.append(('Corr-content-' + variant, c))
         for sname, s in items:
             sub = dict(case, ti=ti, sname=sname)
             try:
